@@ -113,6 +113,10 @@ type Query struct {
 	// per backend: the handler counted a response-cache hit while serving this query
 	// (only recorded by handlers opened with OpenCached)
 	CacheHit map[string]bool `json:"cache_hit,omitempty"`
+	// per backend, for a query served from the cache: the name bytes (as asked) of the query that
+	// populated the entry, i.e. of the latest earlier query of the history with the same location,
+	// type, class and lower-cased name that was not itself served from the cache
+	First map[string][]int `json:"first,omitempty"`
 }
 
 // Servers are the three real servers over one data file.
@@ -121,6 +125,9 @@ type Servers struct {
 	// hits counts, per backend, the DNS_cache.hit increments of a handler opened with
 	// OpenCached (nil for handlers without cache)
 	hits map[string]*hitStats
+	// filled: per backend, cache key (location, type, class, lower-cased name) -> name bytes of
+	// the latest query with that key that went past the cache lookup without a hit
+	filled map[string]map[string][]int
 }
 
 var Backends = []string{"cdb", "rdb1", "rdb2"}
@@ -154,6 +161,7 @@ func openServers(b *Built, cache dnsserver.CacheConfig) (*Servers, error) {
 	s := &Servers{H: map[string]*dnsserver.FBDNSDB{}}
 	if cache.Enabled {
 		s.hits = map[string]*hitStats{}
+		s.filled = map[string]map[string][]int{}
 	}
 	for _, be := range Backends {
 		cfg := dnsserver.DBConfig{Path: b.CDB, Driver: "cdb"}
@@ -167,6 +175,7 @@ func openServers(b *Built, cache dnsserver.CacheConfig) (*Servers, error) {
 		if cache.Enabled {
 			hs := &hitStats{}
 			s.hits[be] = hs
+			s.filled[be] = map[string][]int{}
 			st = hs
 		}
 		h, err := dnsserver.NewFBDNSDBBasic(dnsserver.HandlerConfig{}, cfg, cache, &dnsserver.DummyLogger{}, st)
@@ -311,6 +320,10 @@ func (s *Servers) Ask(q *Query) error {
 	if s.hits != nil {
 		q.CacheHit = map[string]bool{}
 	}
+	q.First = nil
+	if s.filled != nil {
+		q.First = map[string][]int{}
+	}
 	ip := net.ParseIP(q.Client)
 	for _, be := range Backends {
 		h := s.H[be]
@@ -374,6 +387,16 @@ func (s *Servers) Ask(q *Query) error {
 				o.Reply = project(w.msg, w.n)
 			}
 		}()
+		if fl := s.filled[be]; fl != nil && o.Loc == "ok" {
+			key := fmt.Sprintf("%v|%d|%d|%x", o.LocID, q.Type, q.Class, lowerASCII(string(hlib.Unints(q.Name))))
+			if q.CacheHit[be] {
+				if nm, ok := fl[key]; ok {
+					q.First[be] = nm
+				}
+			} else if !(q.HasOpt && q.Version != 0) {
+				fl[key] = append([]int{}, q.Name...)
+			}
+		}
 		if q.Udp {
 			u := &UdpObs{Limit: 512}
 			q.UdpObs[be] = u
